@@ -38,6 +38,13 @@ def encodable_letters(i, cds):
             out.append(a)
     return "".join(sorted(out))
 
+def counted_table(i, cds):
+    """table i re-weighted with the codon counts of cds, as a text table (what OptimizeTable would produce)"""
+    cnt = {}
+    for j in range(0, len(cds) - 2, 3):
+        cnt[cds[j:j + 3]] = cnt.get(cds[j:j + 3], 0) + 1
+    return "ATG/TAA,TAG/" + ";".join(a + ":" + ",".join("%s=%d" % (c, cnt.get(c, 0)) for c in cs) for a, cs in by_aa(i).items())
+
 def biased_cds(r, i, n):
     """n codons; each amino acid gets its own skewed codon preference, some amino acids are left out"""
     d = by_aa(i)
@@ -58,21 +65,45 @@ RULE = ("opt: all 25 default tables x (every letter once; random proteins of len
         "rp: random.ProteinSequence for lengths -1..6 and random lengths to 2000, random seeds, all 25 tables and re-weighted ones; "
         "hist: one private table instance through optimize / re-weight in place / optimize again / swap two entries' letters / translate "
         "(every step judged against the table as it is at that moment); proteins around block sizes (1023..4097; 255..65537 thorough); "
+        "pick: weightedrand.NewChooser + Pick run directly on fixed and random choice lists (1..30 choices, equal and distinct weights, "
+        "weights to 10^12) x 150 (quick) / 400 (thorough) seeds, compared pointwise with the model; replay: single Optimize calls on "
+        "proteins of 40..400 residues under default and count-weighted tables, replayed exactly on the model from the recovered clock "
+        "seed; freqmix (statistical): one mixed protein holding every letter of the table, every letter's codon counts judged, default, "
+        "re-weighted and hand-written tables; pairs (statistical): counts of adjacent codon pairs against the product of the shares; "
         "union (statistical): per table, a protein with every letter 12 times, 40 calls; freq (statistical): 10^5 (quick) / 10^6 "
         "(thorough) draws for one letter, 7 sigma band. Out of domain (correspondence only): negative weights (rand.Intn panics), "
         "tables listing a triplet twice. non-trivial = protein longer than one residue; distinct by case text")
 EXHAUSTIVE = {"quick": False, "thorough": False}
-TRUSTED_BASE = ["the float64 share test `float64(w)/float64(sum) > 0.10` equals the exact test 10*w > sum (for |w|, |sum| < 2^50); "
+TRUSTED_BASE = ["harness op pick reads weightedrand.Chooser's unexported fields data/totals/max with reflect and reports the module "
+                "version from the build info (v0.2.1 expected; another version makes the pick cases out of domain, tagged loudly)",
+                "harness op optreplay: seed search over the clock window, picks replayed in Go with the choosers the Lean model sent; the "
+                "Lean model is then run on the reported draws and must return the real DNA",
+                "the float64 share test `float64(w)/float64(sum) > 0.10` equals the exact test 10*w > sum (for |w|, |sum| < 2^50); "
                 "not proved (Lean's Float is opaque), cross-checked against Lean's binary64 on every codon of every table of the run",
                 "math/rand: rand.Intn(max) takes every value of [0,max) with equal probability; the draws are explicit arguments of the model",
                 "sort.Slice returns some permutation of its input (the theorems hold for every permutation)",
                 "integer overflow of weights / running totals is not modelled (weights below 2^62)",
                 "Model/CodonTranslate.lean and Spec/Ncbi.lean as in C06"]
-ASSUMPTIONS = ["weights are non-negative and the table lists each of the 64 codons exactly once (theorem hypothesis `WF t`)",
-               "rand.Intn is uniform (only the frequency test speaks about it)"]
+ASSUMPTIONS = ["theorem hypothesis `WF t`: the table lists each of the 64 codons exactly once, weights are non-negative, and the usage "
+               "total of every amino acid is below 2^50 — the range in which the exact share test 10*w > sum has the truth value of the "
+               "code's float64 test (first disagreement near 2^51: shareTest 2^51 (10*2^51-1)); tables outside are out of domain for "
+               "the judge as well",
+               "'each requested amino acid has positive usage' is read through the > 10 % rule: an amino acid with positive usage but no "
+               "codon above a 10 % share (ten or more equally used synonyms: each share is exactly 1/10, not > 1/10) is UNENCODABLE and "
+               "Optimize must return the error (theorem ten_equal_synonyms_unencodable, class unenc-all-below-share); with at most 9 "
+               "synonyms positive usage does imply encodable (positive_usage_encodable), and no NCBI code has more than 8 "
+               "(default_synonyms_le_8), so inside 'default and re-weighted tables' the two readings coincide",
+               "rand.Intn is uniform and successive draws are independent (only the statistical tests speak about it)",
+               "default tables are examined in a process in which nobody has re-weighted a shared default table in place "
+               "(GetCodonTable(n).OptimizeTable(seq) mutates the package-level table: known finding C08-alias-default); re-weighted "
+               "tables are deep copies; every id: case verifies that the table the process holds is the regenerated one",
+               "replay cases: the wall clock read by the harness immediately before and after a call brackets the clock value Optimize "
+               "seeds with (a margin of 2 microseconds is searched as well)"]
 PARTIAL = ["'over many draws each eligible codon is chosen in proportion to its weight': proved as the exact count "
            "(pick_proportional: exactly w(c) of the max equally likely draw values select c, for every order the unstable sort may "
-           "leave); that the real draws are uniform and independent is an assumption about math/rand, supported by the 7-sigma frequency test only"]
+           "leave). The picking algorithm is tied to the code pointwise (pick cases: same (r, item) pairs as weightedrand; replay cases: "
+           "whole Optimize outputs reproduced by the model from the recovered seed); that the real draws are uniform and independent "
+           "is an assumption about math/rand, supported by the 7-sigma frequency and pair tests only"]
 
 def cases(seed, tier):
     r = rng(seed, "C07")
@@ -190,6 +221,58 @@ def cases(seed, tier):
         enc = encodable_letters(i, cds)
         if enc:
             yield ["freq", "rw:%d:%s" % (i, cds), r.choice(enc), str(per), str(calls)]
+    # ---- the weighted pick itself: weightedrand.NewChooser + Pick against `newChooser` / `pick`, pointwise
+    def seeds(k):
+        return ",".join(str(r.randrange(-2 ** 62, 2 ** 62)) for _ in range(k))
+    nseeds = 150 if not thorough else 400
+    names = CODONS
+    pick_lists = [
+        [1], [5], [1, 1], [1, 2], [2, 1], [1, 1, 1, 1, 1, 1], [3, 1, 2], [1, 2, 3, 4, 5, 6, 7, 8, 9], [9, 8, 7, 6, 5, 4, 3, 2, 1],
+        [5, 5, 1, 1, 3, 3], [2, 13], [10 ** 12, 10 ** 12 + 1, 7], [0, 3, 0, 2], [1] * 9, [4, 4, 4, 2, 2, 9, 9, 1],
+        [7] * 13, list(range(20, 0, -1)), [3, 1, 4, 1, 5, 9, 2, 6, 5, 3, 5, 8, 9, 7, 9, 3, 2, 3, 8, 4]]
+    for ws in pick_lists:
+        yield ["pick", ",".join("%s=%d" % (names[k], w) for k, w in enumerate(ws)), seeds(nseeds)]
+    for _ in range(15 if not thorough else 200):
+        n = r.randint(1, 9) if r.random() < 0.8 else r.randint(10, 30)
+        ws = [r.choice([1, 1, 2, 3, 5, 10, 30, r.randint(1, 1000)]) for _ in range(n)]
+        yield ["pick", ",".join("%s=%d" % (c, w) for c, w in zip(r.sample(names, n), ws)), seeds(nseeds)]
+    yield ["pick", "AAA=0,AAG=0", seeds(3)]              # max = 0: rand.Intn panics (out of domain; model says panic)
+    # ---- one Optimize call replayed exactly on the model (the harness finds the clock seed)
+    for _ in range(40 if not thorough else 400):
+        i = r.choice(IDS)
+        if r.random() < 0.4:
+            spec, enc = "id:%d" % i, "".join(sorted(by_aa(i)))
+        else:
+            cds = biased_cds(r, i, r.randint(60, 900))
+            spec, enc = "txt:" + counted_table(i, cds), encodable_letters(i, cds)
+        if enc:
+            yield ["replay", spec, randword(r, enc, r.randint(40, 400))]
+    yield ["replay", "id:27", "MKV*"]
+    # ---- frequencies over a MIXED protein: every letter of the table judged in one case (statistical)
+    reps, calls = (40, 100) if not thorough else (100, 250)
+    mixed = []
+    for _ in range(3 if not thorough else 12):
+        i = r.choice(IDS)
+        mixed.append(("id:%d" % i, "".join(sorted(by_aa(i)))))
+    for _ in range(3 if not thorough else 12):
+        i = r.choice(IDS)
+        cds = biased_cds(r, i, r.randint(300, 3000))
+        enc = encodable_letters(i, cds)
+        if enc:
+            mixed.append(("rw:%d:%s" % (i, cds), enc))
+    mixed.append(("txt:" + above, "".join(sorted(by_aa(1)))))
+    for spec, enc in mixed:
+        yield ["freqmix", spec, "".join(r.sample(enc * reps, reps * len(enc))), str(calls)]
+    # ---- adjacent picks are independent: codon-pair counts for a two-letter repeat (statistical)
+    pair_units = ["KL", "KK"] if not thorough else ["KL", "KK", "FF", "GG", "PP", "LS", "RR", "AV", "SS", "TG"]
+    for u in pair_units:
+        yield ["pairs", "id:%d" % r.choice([1, 11, 4]), u, "500", str(100 if not thorough else 400)]
+    i = r.choice(IDS)
+    cds = biased_cds(r, i, 2000)
+    enc = encodable_letters(i, cds)
+    if len(enc) >= 2:
+        for _ in range(1 if not thorough else 6):
+            yield ["pairs", "rw:%d:%s" % (i, cds), r.choice(enc) + r.choice(enc), "500", str(100 if not thorough else 400)]
     # ---- out of domain: correspondence only
     neg = table(lambda a, c: -5 if c == "AAA" else 1)             # K: weights -5, 1 -> sum -4: uint wrap, rand.Intn(-5) panics
     yield ["opt", "txt:" + neg, "MK", "2"]
